@@ -1524,6 +1524,17 @@ def gen_forward_model(rng, user=False):
         lead[0] = 1
     logly = [rng.chance(0.3) for _ in range(n)]
     level = [round(0.8 + 1.2 * rng.random(), 3) for _ in range(n)]
+    # data edge: a variable whose steady level is EXACTLY 0 multiplies a lead in a later equation that has no lead of its own, so that
+    # at the steady state the derivatives of that equation w.r.t. all its leads are exactly 0.0 (stored zeros of the sparse pattern)
+    zero_edge = None
+    if rng.chance(0.6):
+        z = rng.randint(0, n - 2)
+        i_edge = rng.randint(z + 1, n - 1)
+        logly[z] = False
+        level[z] = 0.0
+        lead[z] = max(lead[z], 1)
+        lead[i_edge] = 0
+        zero_edge = (z, i_edge)
     ps = ["p0"]
     par = {"p0": round(0.3 + 1.0 * rng.random(), 3)}
     shocks = [f"e{i}" for i in range(n)]
@@ -1553,6 +1564,11 @@ def gen_forward_model(rng, user=False):
         if user and not uses_user(h):
             h = ("softplus", h, ("c", 2.0)) if len(leaves) < 2 else ("hyp", h, ("t",) + tuple(rng.choice(leaves)))
         terms.append(("mul", ("c", round(0.1 + 0.2 * rng.random(), 2)), h))
+        if zero_edge is not None and zero_edge[1] == i:
+            z = zero_edge[0]
+            js = [j for j in range(i) if lead[j] >= 1]
+            j = rng.choice(js)
+            terms.append(("mul", ("c", round(0.2 + 0.3 * rng.random(), 2)), ("mul", ("t", z, 0), ("t", j, rng.randint(1, lead[j])))))
         rhs = terms[0]
         for t in terms[1:]:
             rhs = ("add", rhs, t)
@@ -1568,7 +1584,8 @@ def gen_forward_model(rng, user=False):
     init = {x: round(level[i] * (0.7 + 0.6 * rng.random()), 3) for i, x in enumerate(xs)}
     shock_values = {e: [round(0.4 * (rng.random() - 0.5), 3) if rng.chance(0.5) else 0.0 for _ in range(T)] for e in shocks}
     out = {"kind": "forward-model", "source": "\n".join(src), "assign": dict({x: level[i] for i, x in enumerate(xs)}, **par),
-           "flat": True, "periods": T, "initial": init, "shocks": shock_values, "terminal": "first_order", "max_lead": max(lead)}
+           "flat": True, "periods": T, "initial": init, "shocks": shock_values, "terminal": "first_order", "max_lead": max(lead),
+           "zero_edge": zero_edge is not None}
     if user:
         out["context"] = sorted(USER_FUNCS)
     return out
@@ -1856,6 +1873,87 @@ def check_variant_model(ctx: Ctx, case):
     oracle_systemize(ctx, case, m, prefix="variant:reassigned:", vid=0, arr_override=own_data_array(m, last, linear))
 
 
+def terminated_evaluator(m, T):
+    """stacked-time evaluator with the first-order Terminator, built as stacked_time/simulators.py builds it"""
+    from irispie.incidences.main import Token
+    from irispie.quantities import QuantityKind as QK
+    from irispie.equations import EquationKind as EK
+    from irispie.stacked_time import _evaluators as ste
+    from irispie.fords.terminators import Terminator
+    inv = m._invariant
+    eqs = [e for e in inv.dynamic_equations if e.kind in EK.TRANSITION_EQUATION]
+    base = -inv._min_shift
+    cols = tuple(range(base, base + T))
+    xq = [q.id for q in inv.quantities if q.kind in QK.TRANSITION_VARIABLE]
+    spots = tuple(Token(q, c) for c in cols for q in xq)
+    term = Terminator(m, cols, eqs)
+    term.create_terminal_jacobian_map(spots)
+    ev = ste.create_evaluator(spots, cols, eqs, inv.quantities, term, m.get_context())
+    return ev, term, spots, cols, eqs, xq
+
+
+def oracle_terminated_history(ctx: Ctx, case, m, lines_out=None):
+    """call history on ONE stacked-time evaluator with the first-order terminal condition: the first Jacobian at the exact steady state
+    (where a zero-level variable makes some lead derivatives exactly 0.0), then at generic points (guess updated in place, same data array);
+    every call against differences of a fresh evaluator's eval_func; `termrows`: the rows cached by terminate_jacobian vs the structural rows"""
+    T = case["periods"]
+    inv = m._invariant
+    ql = m.create_qid_to_logly()
+    ms, Ms = inv._min_shift, inv._max_shift
+    try:
+        ev, term, spots, cols, eqs, xq = terminated_evaluator(m, T)
+        ref, *_ = terminated_evaluator(m, T)
+        arr = m._variants[0].create_steady_array(ql, num_columns=-ms + T + Ms + 1, shift_in_first_column=ms)
+        g0 = np.array(ev.get_init_guess(arr.copy()), dtype=float)
+    except Exception as ex:
+        ctx.count("oracle:terminated-history-setup-raised:" + type(ex).__name__)
+        return
+    wob = 0.08 * np.sin(1.0 + np.arange(len(g0))) + 0.05
+    x, data = g0.copy(), arr.copy()
+    steps = []
+
+    def dense(Jk):
+        return np.array(Jk.toarray() if hasattr(Jk, "toarray") else Jk, dtype=float)
+    try:
+        with np.errstate(all="ignore"):
+            steps.append(("first call, at the steady state", x.copy(), dense(ev.eval_jacob(x, data))))
+            rows_cached = sorted(set(int(r) for r in np.ravel(term.terminal_jacobian_map.lhs[0])))
+            x += wob
+            steps.append(("second call after x += step", x.copy(), dense(ev.eval_jacob(x, data))))
+            x[:] = g0 - 0.6 * wob
+            steps.append(("func_jacob after x[:] = point", x.copy(), dense(ev.eval_func_jacob(x, data)[1])))
+    except TypeError:
+        ctx.count("oracle:terminated-history-rejected")
+        return
+    except Exception as ex:
+        ctx.fail("stacked-terminal:raised", case, f"stacked-time evaluator with terminal condition raised {type(ex).__name__}: {str(ex)[:200]}")
+        return
+    ctx.count("oracle:terminated-history-models")
+    ctx.count("oracle:terminated-history-zero-edge" if case.get("zero_edge") else "oracle:terminated-history-no-zero-edge")
+    for label, point, Jk in steps:
+        D, E = np.zeros(Jk.shape), np.zeros(Jk.shape)
+        for j in range(len(point)):
+            def g(u):
+                xx = point.copy(); xx[j] += u
+                with np.errstate(all="ignore"):
+                    return np.array(ref.eval_func(xx, arr.copy()), dtype=float)
+            h = 1e-3
+            d1 = (g(h) - g(-h)) / (2 * h)
+            d2 = (g(h / 2) - g(-h / 2)) / h
+            D[:, j], E[:, j] = (4 * d2 - d1) / 3, np.abs(d2 - d1)
+        if not compare_matrix(ctx, "stacked-terminal:history", case,
+                              f"stacked-time Jacobian with first-order terminal condition, call history on one evaluator ({label})",
+                              Jk, lambda i, j: (D[i, j], E[i, j])):
+            break
+    if lines_out is not None:
+        wrts = [[t for t in e.incidence if t.qid in set(xq)] for e in eqs]
+        allspots = list(spots) + list(term.terminal_wrt_spots)
+        ws = ["termrows"] + tok_list(allspots) + [str(len(spots)), str(len(cols))] + [str(c) for c in cols] + [str(len(wrts))]
+        for w in wrts:
+            ws += tok_list(w)
+        lines_out.append((" ".join(ws), ",".join(str(r) for r in rows_cached), {"model": case["source"], "request": "termrows"}))
+
+
 def run_forward_models(ctx: Ctx, scale=1, oracle_only=False):
     n = ctx.n(16, 200) * scale
     rng = ctx.rng.fork("forward-models")
@@ -1881,13 +1979,24 @@ def run_forward_models(ctx: Ctx, scale=1, oracle_only=False):
         oracle_stacked(ctx, mc, m)
         if case.get("context"):
             check_rebinding_model(ctx, dict(mc, sequence=["B", "A"]))
+        if oracle_only and case.get("terminal") == "first_order":
+            try:
+                with contextlib.redirect_stdout(io.StringIO()):
+                    m.solve()
+                oracle_terminated_history(ctx, case, m)
+            except Exception as ex:
+                ctx.count("forward-models:terminated-history-raised:" + type(ex).__name__)
         if not oracle_only:
             try:
-                import io, contextlib
                 with contextlib.redirect_stdout(io.StringIO()):
                     m.solve()
                 ls, im = terminator_lines(m, case["periods"])
                 t_lines += ls; t_impl += im; t_cases += [{"model": case["source"], "request": l[:200]} for l in ls]
+                if case.get("terminal") == "first_order":
+                    extra = []
+                    oracle_terminated_history(ctx, case, m, extra)
+                    for l, im1, c1 in extra:
+                        t_lines.append(l); t_impl.append(im1); t_cases.append(c1)
                 ls, im = maps_lines(ctx, mc, m)
                 t_lines += ls; t_impl += im; t_cases += [{"model": case["source"], "request": l[:200]} for l in ls]
             except Exception as ex:
@@ -1966,6 +2075,14 @@ def replay_case(ctx: Ctx, case, bad_rules=None):
         ctx.evaluations += 1
     elif case.get("kind") == "forward-model":
         oracle_simulate_stacked(ctx, case)
+        if case.get("terminal") == "first_order":
+            try:
+                m = build_model(case)
+                with contextlib.redirect_stdout(io.StringIO()):
+                    m.solve()
+                oracle_terminated_history(ctx, case, m)
+            except Exception as ex:
+                ctx.count("replay:terminated-history-raised:" + type(ex).__name__)
         ctx.evaluations += 1
     elif case.get("kind") == "model":
         try:
